@@ -33,7 +33,7 @@ var (
 	rounds   = flag.Int("rounds", 2, "connections per run (the client is reused)")
 	events   = flag.Int("events", 400, "server events per connection")
 	workers  = flag.Int("workers", 4, "goroutines per API group")
-	watchdog = flag.Duration("watchdog", 25*time.Second, "a round that takes longer is a deadlock")
+	watchdog = flag.Duration("watchdog", 60*time.Second, "an API call (getter, registrar) or a phase of the driver that makes no progress for this long is a deadlock (senders: twice as long, girc's own write timeout is 30 s)")
 	known    = flag.Bool("known", false, "also provoke the unrepaired known findings (STS upgrade, CTCP FINGER, CTCP handler that registers)")
 	dumpTo   = flag.String("dump", "", "file for the goroutine dump on deadlock")
 )
@@ -330,41 +330,69 @@ func main() {
 	var phase atomic.Value
 	phase.Store("start")
 	finished := make(chan struct{})
-	go func() {
-		select {
-		case <-finished:
-		case <-time.After(time.Duration(*rounds) * *watchdog):
-			msg := fmt.Sprintf("DEADLOCK: phase %q did not complete (seed %d, GOMAXPROCS %d)\n", phase.Load(), *seed, runtime.GOMAXPROCS(0))
-			os.Stderr.WriteString(msg)
-			if *dumpTo != "" {
-				if f, err := os.Create(*dumpTo); err == nil {
-					f.WriteString(msg)
-					pprof.Lookup("goroutine").WriteTo(f, 2)
-					f.Close()
-				}
-			} else {
-				pprof.Lookup("goroutine").WriteTo(os.Stderr, 2)
+	// progress stamps (unix nanoseconds): one per worker, one for the driver
+	nworkers := *workers * 4
+	stamps := make([]int64, nworkers+1)
+	kinds := make([]string, nworkers+1)
+	now := func() int64 { return time.Now().UnixNano() }
+	for i := range stamps {
+		stamps[i] = now()
+	}
+	kinds[nworkers] = "driver"
+	tick := func(i int) { atomic.StoreInt64(&stamps[i], now()) }
+	fail := func(msg string) {
+		os.Stderr.WriteString(msg)
+		if *dumpTo != "" {
+			if f, err := os.Create(*dumpTo); err == nil {
+				f.WriteString(msg)
+				pprof.Lookup("goroutine").WriteTo(f, 2)
+				f.Close()
 			}
-			os.Exit(3)
+		} else {
+			pprof.Lookup("goroutine").WriteTo(os.Stderr, 2)
+		}
+		os.Exit(3)
+	}
+	go func() {
+		for {
+			select {
+			case <-finished:
+				return
+			case <-time.After(time.Second):
+			}
+			for i := range stamps {
+				limit := *watchdog
+				if kinds[i] == "senders" || kinds[i] == "driver" {
+					limit = 2 * *watchdog
+				}
+				if age := time.Duration(now() - atomic.LoadInt64(&stamps[i])); age > limit {
+					fail(fmt.Sprintf("DEADLOCK: %s #%d made no progress for %v in phase %q (seed %d, GOMAXPROCS %d)\n",
+						kinds[i], i, age.Round(time.Second), phase.Load(), *seed, runtime.GOMAXPROCS(0)))
+				}
+			}
 		}
 	}()
 
 	// API goroutines run across connections (also while disconnected)
 	var stop int32
 	var wg sync.WaitGroup
+	widx := 0
 	for g := 0; g < *workers; g++ {
-		for _, fn := range []func(*girc.Client, *rand.Rand){getters, getters, senders, registrars} {
+		for k, fn := range []func(*girc.Client, *rand.Rand){getters, getters, senders, registrars} {
 			wg.Add(1)
-			go func(fn func(*girc.Client, *rand.Rand), sd int64) {
+			kinds[widx] = []string{"getters", "getters", "senders", "registrars"}[k]
+			go func(fn func(*girc.Client, *rand.Rand), sd int64, me int) {
 				defer wg.Done()
 				rr := rand.New(rand.NewSource(sd))
 				for atomic.LoadInt32(&stop) == 0 {
 					fn(c, rr)
+					tick(me)
 					if rr.Intn(8) == 0 {
 						runtime.Gosched()
 					}
 				}
-			}(fn, r.Int63())
+			}(fn, r.Int63(), widx)
+			widx++
 		}
 	}
 
@@ -376,6 +404,11 @@ func main() {
 		ready := make(chan struct{})
 		var once sync.Once
 		hid := c.Handlers.Add(girc.INITIALIZED, func(cl *girc.Client, e girc.Event) { once.Do(func() { close(ready) }) })
+		// the last line of the script: when its handler has run, every earlier event was dispatched
+		marker := make(chan struct{})
+		var monce sync.Once
+		mid := c.Handlers.Add("399", func(cl *girc.Client, e girc.Event) { monce.Do(func() { close(marker) }) })
+		sc.lines = append(sc.lines, ":srv 399 hunter :end of script")
 
 		// the server: read and discard what the client sends, play the script
 		go func() {
@@ -389,18 +422,22 @@ func main() {
 		done := make(chan error, 1)
 		go func() { done <- c.MockConnect(cli) }()
 		<-ready
+		tick(nworkers)
 		atomic.StoreInt32(&sendOK, 1)
 		phase.Store(fmt.Sprintf("round %d: events", round))
 		for i, l := range sc.lines {
-			srv.SetWriteDeadline(time.Now().Add(10 * time.Second))
+			srv.SetWriteDeadline(time.Now().Add(100 * time.Second))
 			if _, err := srv.Write([]byte(l + "\r\n")); err != nil {
 				break
 			}
+			tick(nworkers)
 			if i%16 == 0 {
 				time.Sleep(time.Duration(sc.r.Intn(400)) * time.Microsecond)
 			}
 		}
 		atomic.StoreInt32(&sendOK, 0)
+		<-marker // blocks for ever if event dispatch is stuck: the watchdog reports it
+		tick(nworkers)
 		time.Sleep(150 * time.Millisecond)
 		phase.Store(fmt.Sprintf("round %d: close", round))
 		// the closer (after the connection is up: synchronised through the INITIALIZED handler)
@@ -410,9 +447,12 @@ func main() {
 			go func() { defer cw.Done(); c.Close() }()
 		}
 		cw.Wait()
+		tick(nworkers)
 		<-done
+		tick(nworkers)
 		srv.Close()
 		c.Handlers.Remove(hid)
+		c.Handlers.Remove(mid)
 		phase.Store(fmt.Sprintf("round %d: disconnected", round))
 		time.Sleep(10 * time.Millisecond)
 	}
